@@ -29,10 +29,12 @@ def obligation_id(unit, f):
     return f"{unit}::{f['fn']}::{f['msg']}::{c[:160]}"
 
 
-def match_known(known, prop, unit, f):
+def match_known(known, prop, unit, f, any_prop=False):
+    """the listed finding this failing obligation is, if any. A finding is *reported* (KNOWN-FINDING line) by the checks of the
+    properties it violates (`property`, `also_violates`); the checks of the other properties the function serves leave the obligation
+    out (any_prop=True: it is a listed finding of another property, neither a violation nor a finding of this one)"""
     for k in known.get("findings", []):
-        # a failing obligation is reported under every property its function serves (see `relevant`); so is a listed finding
-        if k.get("property") != prop and prop not in (k.get("also_reported_under") or []):
+        if not any_prop and k.get("property") != prop and prop not in (k.get("also_violates") or []):
             continue
         if k.get("unit") and k["unit"] != unit:
             continue
@@ -204,6 +206,7 @@ def main(argv):
     results = run_units(units, seed=(seed or None))
     violations = []
     known_hits = []
+    known_elsewhere = []
     undecided = []
     fn_rows = []
     total_obl = 0
@@ -251,7 +254,7 @@ def main(argv):
         # stability: a candidate must reproduce on two more seeds, one of them with 4x rlimit (listed findings are not re-run:
         # they are reported as KNOWN-FINDING while they fail and simply stop being reported when they no longer do)
         stable = cand
-        if [f for f in cand if not match_known(known, prop, u, f)]:
+        if [f for f in cand if not match_known(known, prop, u, f, any_prop=True)]:
             for (sd, rl) in ((seed + 1, 30), (seed + 2, 120)):
                 st2, R2, _ = _safe_verify(u, rl, sd)
                 if st2 != "ok":
@@ -271,6 +274,10 @@ def main(argv):
             if k:
                 known_hits.append((k, oid))
                 continue
+            k2 = match_known(known, prop, u, f, any_prop=True)
+            if k2:
+                known_elsewhere.append(k2.get("id"))
+                continue
             if f["fn"] not in base["functions"] and f["fn"] not in base.get("known_failing_functions", []):
                 undecided.append(f"{u}: failing obligation in a function that is not in the baseline: {oid}")
                 continue
@@ -282,7 +289,7 @@ def main(argv):
             bad_all = [f for f in R.failures if f["fn"] == n]
             # obligations that are listed findings are not claimed: they are taken out of the count on both sides and reported
             # separately (coverage.known_finding_obligations)
-            kn_here = [f for f in bad_all if match_known(known, prop, u, f)]
+            kn_here = [f for f in bad_all if match_known(known, prop, u, f, any_prop=True)]
             known_obl += len(kn_here)
             bad_here = [f for f in bad_all if f not in kn_here]
             und_here = [x for x in R.undecided if x.get("fn") == n]
@@ -377,6 +384,7 @@ def main(argv):
             "canary_failed_as_expected": all(results[u][0] == "ok" and results[u][1].canary_failed for u in units),
             "known_findings_hit": [k.get("id") for (k, _) in known_hits],
             "known_finding_obligations": known_obl,
+            "known_findings_of_other_properties_left_out": sorted(set(known_elsewhere)),
             "known_findings_note": ("obligations/discharged count what this run claims as proved; the %d obligation(s) that are listed findings (known_findings.json: genuine defects of /repo recorded, not repaired) fail, are reported as KNOWN-FINDING and are excluded from both numbers" % known_obl) if known_obl else "",
             "undecided": undecided[:20],
             "samples": samples,
